@@ -363,8 +363,21 @@ def run_cli(res, ast):
                 if not opened or not any(_trf.derives_from(a_, ARG) for a_ in opened[0][2]):
                     probs.append(f"{what}: the file named by the argument is not opened")
                 if not fail:
-                    if len(reads) != 1 or list(reads[0][3]) != [CODE] or not _trf.derives_from(reads[0][2], ARG):
-                        probs.append("the file's contents are not read into `code` with read_to_string (append)")
+                    # the contents reach `code` by appending: read_to_string(&mut code) on the opened file, or a buffer / returned String that is
+                    # then pushed onto `code`
+                    creads = [e_ for e_ in it.events if e_[0] == "call" and e_[1].split("::")[-1] == "read_to_string"]
+                    direct = [e_ for e_ in reads if list(e_[3]) == [CODE] and _trf.derives_from(e_[2], ARG)]
+                    bufs = [e_[3][0] for e_ in reads if len(e_[3]) == 1 and e_[3][0] is not CODE and _trf.derives_from(e_[2], ARG)] + \
+                           [_trf.Sym("call:" + e_[1], tuple(e_[2])) for e_ in creads if any(_trf.derives_from(a_, ARG) for a_ in e_[2])]
+                    pushes = [e_ for e_ in it.events if e_[0] == "method" and e_[1] == "push_str" and e_[2] is CODE and len(e_[3]) == 1]
+                    now = env_.get(N["code"])
+                    via_push = [e_ for e_ in pushes if any(_trf.derives_from(e_[3][0], b_) or e_[3][0] == b_ for b_ in bufs)]
+                    via_add = now is not CODE and isinstance(now, _trf.Sym) and now.label == "op:+" and now.args and now.args[0] is CODE and \
+                        any(_trf.derives_from(now, b_) for b_ in bufs)
+                    n_ways = len(direct) + len(via_push) + (1 if via_add else 0)
+                    if n_ways != 1 or (now is not CODE and not via_add):
+                        probs.append("the file's contents are not read into `code` with read_to_string (append)" if n_ways == 0 else
+                                     "the file's contents are appended more than once, or `code` is replaced")
                     if flagged is not False or reports:
                         probs.append("a successfully read file is reported / flagged as an error")
                 else:
